@@ -255,14 +255,25 @@ def oracle_c10(case, out):
             return "c%d: disconnected signalled %d times" % (c, kinds.count("disconnected"))
         if "disconnected" in kinds and kinds[-1] != "disconnected":
             return "c%d: event %s after disconnected" % (c, kinds[kinds.index("disconnected") + 1])
+    seen_ids, closed_ids = set(), set()
     for si, s in enumerate(segs):
         for l in s.lines:
+            mm = re.match(r"(?:accepted|ev \w+|io \w+) c(\d+)\b", l)
+            if mm:
+                seen_ids.add(int(mm.group(1)))
+                if l.startswith("io close c"):
+                    closed_ids.add(int(mm.group(1)))
             if l.startswith("state "):
                 m = re.match(r"state adaptors=(\d+) http=(\d+) comms=(\d+)", l)
                 a, h, cm = int(m.group(1)), int(m.group(2)), int(m.group(3))
                 destroyed = any(x.op.startswith("srv-destroy") for x in segs[:si + 1])
                 if not destroyed and (a != cm or h > cm):
                     return "after %d operations the server retains %d connections (%d http) but %d are open" % (si, cm, h, a)
+                # independent of the adaptor count: a connection whose socket the library has closed is forgotten
+                open_now = len(seen_ids - closed_ids)
+                if not destroyed and cm > open_now:
+                    return ("after %d operations the server retains %d connections but only %d sockets are still open "
+                            "(%d connections seen, %d closed)" % (si, cm, open_now, len(seen_ids), len(closed_ids)))
         if s.op.startswith("accept") and "rejected" in s.lines and any(l.startswith("ev ") for l in s.lines):
             return "a connection refused by the filter produced an event"
     # a connection that was connected and whose socket was closed must have been disconnected exactly once,
